@@ -898,7 +898,7 @@ async fn exec<const N: usize>(st: &mut St<N>, ctx: &mut Ctx, toks: &[&str]) {
                 let known = known.clone();
                 let s = storage.clone();
                 handles.push(tokio::spawn(async move {
-                    let mk_key = |i: usize| { let mut b = vec![0u8; N]; b[N - 1] = (i + 1) as u8; ArrayKey::<N>::from(b) };
+                    let mk_key = |i: usize| { let mut b = vec![0u8; N]; b[N - 1] = ((i + 1) & 0xff) as u8; if N >= 2 { b[N - 2] = (((i + 1) >> 8) & 0xff) as u8; } ArrayKey::<N>::from(b) };
                     let mut log: Vec<String> = Vec::new();
                     let mut x = seed.wrapping_mul(6364136223846793005).wrapping_add((t as u64).wrapping_mul(1442695040888963407).wrapping_add(1));
                     for i in 0..ops {
